@@ -226,14 +226,14 @@ def call(out, site, name, fn, **detail):
         with np.errstate(all='ignore'):
             v = fn()
     except Exception as e:  # every input handed in is a valid two-qubit state / normalised pure state
-        out.violation('%s/%s/raises_%s' % (site, name, type(e).__name__), '%s raised %r on an admissible input' % (name, e), **detail)
+        out.violation('%s/%s/raises_%s' % (site, name, type(e).__name__), '%s raised %r on an admissible input (%s)' % (name, e, detail.get('state')), **detail)
         return False, None
     s = _scalar(v)
     if s is None:
-        out.violation('%s/%s/not_a_real_scalar' % (site, name), '%s returned %r' % (name, v), **detail)
+        out.violation('%s/%s/not_a_real_scalar' % (site, name), '%s returned %r (%s)' % (name, v, detail.get('state')), **detail)
         return False, None
     if not np.isfinite(s):
-        out.violation('%s/%s/not_finite' % (site, name), '%s returned %r where the reference is finite' % (name, s), **detail)
+        out.violation('%s/%s/not_finite' % (site, name), '%s returned %r where the reference is finite (%s)' % (name, s, detail.get('state')), **detail)
         return False, None
     return True, s
 
